@@ -4,6 +4,7 @@ package sctp
 // API recorder and the plumbing shared by all property scenarios.
 
 import (
+	"sync/atomic"
 	"errors"
 	"fmt"
 	"io"
@@ -200,7 +201,13 @@ type world struct {
 	obsLog    []string
 	keepObs   bool
 	canonEmit bool // twin comparison over canonicalised packets (C16)
+	deadlockProp string // property a lock cycle is reported under (default C20)
+	maxLoop   int64 // largest number of loop iterations seen in one scheduling step
 }
+
+// loopSoftLimit: more iterations than this in one scheduling step are reported (the largest
+// legitimate steps - sorting or scanning a full receive window - stay far below).
+const loopSoftLimit = 4_000_000
 
 // observe records one externally observable event (API call result, emitted packet) for twin comparisons.
 func (w *world) observe(s string) {
@@ -474,6 +481,13 @@ func (w *world) run(cond func() bool, deadline time.Duration) stopReason {
 			w.violate("C03", "panic", "%s", s.panicMsg)
 			return stopViolation
 		}
+		if n := atomic.SwapInt64(&vsimLoopN, 0); n > w.maxLoop {
+			w.maxLoop = n
+			if n > loopSoftLimit {
+				w.violate("C03", "unbounded-step", "%d loop iterations were executed between two scheduling points (task %s): the time to process one event is not bounded by its size", n, s.lastName())
+				return stopViolation
+			}
+		}
 		for _, m := range w.mons {
 			m.onStep()
 		}
@@ -535,7 +549,11 @@ func (w *world) run(cond func() bool, deadline time.Duration) stopReason {
 		}
 		// nothing can run now: advance virtual time
 		if cyc := w.lockCycle(); cyc != "" {
-			w.violate("C20", "deadlock", "lock cycle: %s\n%s", cyc, s.describeBlocked())
+			prop := "C20"
+			if w.deadlockProp != "" {
+				prop = w.deadlockProp
+			}
+			w.violate(prop, "deadlock", "lock cycle: %s\n%s", cyc, s.describeBlocked())
 			return stopViolation
 		}
 		if now >= deadline {
@@ -895,6 +913,7 @@ type runResult struct {
 	ObsHash   string            `json:"obs_hash,omitempty"`
 	obs       []string
 	Extra     map[string]any    `json:"extra,omitempty"`
+	MaxLoop   int64             `json:"max_loop,omitempty"`
 }
 
 type runOpts struct {
@@ -1009,6 +1028,7 @@ func runOne(t *testing.T, sc scenario, o runOpts) (res *runResult) {
 			}
 		}
 		res.Extra = w.extra
+		res.MaxLoop = w.maxLoop
 		res.Sig, res.Nontrivial = w.signature()
 	}
 	res.Trace = trace
